@@ -2,7 +2,9 @@ package main
 
 import (
 	"bufio"
+	"bytes"
 	"crypto/md5"
+	"encoding/hex"
 	"encoding/json"
 	"fmt"
 	"io"
@@ -12,6 +14,7 @@ import (
 	"strconv"
 	"strings"
 	"sync"
+	"sync/atomic"
 	"time"
 
 	"github.com/arm-doe/sts"
@@ -119,7 +122,23 @@ func safeLogOpen(path string, flag int, perm os.FileMode) (*os.File, error) {
 
 type quietLogger struct{}
 
+// hammerGate lines up the concurrent Receive calls of the `hammer` op just before they ask for the file lock
+// (the "Receiving part:" debug line is the last thing Receive does before getPathLock).
+var hammerGate atomic.Pointer[hammerBarrier]
+
+type hammerBarrier struct {
+	need    int32
+	arrived atomic.Int32
+}
+
 func (quietLogger) Debug(a ...interface{}) {
+	if hb := hammerGate.Load(); hb != nil && len(a) > 1 {
+		if s, ok := a[1].(string); ok && s == "Receiving part:" {
+			hb.arrived.Add(1)
+			for t0 := time.Now(); hb.arrived.Load() < hb.need && time.Since(t0) < 5*time.Millisecond; {
+			}
+		}
+	}
 	if os.Getenv("VERIF_STAGE_LOG") == "2" {
 		fmt.Fprintln(os.Stderr, append([]interface{}{"D"}, a...)...)
 	}
@@ -1164,6 +1183,24 @@ func (e *stageExec) do1(op []string) string {
 		fh.Close()
 		e.oldLogged[name+"|"+e.realHash(tok)+"|"+unesc(op[2])] = t.Unix()
 		return "ok"
+	case len(op) == 3 && op[0] == "hammer":
+		// C09 under real concurrency: K parts of a brand-new file arrive on K connections at the same instant
+		// (lined up just before they take the file lock, right after a recovery question dropped the lock entry),
+		// ROUNDS times on a stage of its own; every acknowledged part must be on record
+		k, err1 := strconv.Atoi(op[1])
+		rounds, err2 := strconv.Atoi(op[2])
+		if err1 != nil || err2 != nil || k < 2 || k > 8 || rounds < 1 || rounds > 2000 {
+			return "bad-op"
+		}
+		lost, herr := stageHammer(r.sandbox, k, rounds)
+		if herr != nil {
+			return "harness-error " + esc(herr.Error())
+		}
+		if lost != "" {
+			e.fails = append(e.fails, "ack-lost: "+lost)
+			return "lost"
+		}
+		return "ok"
 	case len(op) == 1 && op[0] == "cleanwaiting":
 		// the cleaner may give the order up only when predecessor references among the held files form a cycle
 		if e.heldCycle() {
@@ -1971,4 +2008,64 @@ func (e *stageExec) Close() {
 	if e.rig != nil {
 		e.rig.close()
 	}
+}
+
+
+// stageHammer runs the hammer rounds on a fresh Stage under dir; returns a description of the first lost
+// acknowledgement, or "".
+func stageHammer(dir string, k, rounds int) (string, error) {
+	base, err := os.MkdirTemp(dir, "hammer-")
+	if err != nil {
+		return "", err
+	}
+	defer os.RemoveAll(base)
+	root, final, logdir := filepath.Join(base, "stage"), filepath.Join(base, "final"), filepath.Join(base, "log")
+	for _, d := range []string{root, final, logdir} {
+		os.MkdirAll(d, 0o755)
+	}
+	st := stage.New("hammer", root, final, stslog.NewFileIO(logdir, nil, safeLogOpen, false), nil, nil)
+	defer st.Stop(true)
+	st.Recover()
+	const partLen = 8
+	for round := 0; round < rounds; round++ {
+		name := fmt.Sprintf("d%02d/f%05d.dat", round%7, round)
+		size := int64((k + 1) * partLen) // one part is never sent: the file stays a partial
+		body := make([]byte, size)
+		for i := range body {
+			body[i] = byte(round + i)
+		}
+		sum := md5.Sum(body)
+		hash := hex.EncodeToString(sum[:])
+		mk := func(i int) *sts.Partial {
+			return &sts.Partial{Name: name, Size: size, Hash: hash, Source: "hammer", Time: marshal.NanoTime{Time: time.Unix(1700000000, 0)},
+				Parts: []*sts.ByteRange{{Beg: int64(i * partLen), End: int64((i + 1) * partLen)}}}
+		}
+		st.Prepare([]sts.Binned{&binnedPart{name: name, size: size}})
+		// the recovery question of a sender that lost an answer: nothing on record yet; drops the lock entry
+		st.Received([]sts.Binned{&binnedPart{name: name, hash: hash, ftime: time.Unix(1700000000, 0), beg: 0, end: partLen}})
+		hb := &hammerBarrier{need: int32(k)}
+		hammerGate.Store(hb)
+		errs := make([]error, k)
+		var wg sync.WaitGroup
+		for i := 0; i < k; i++ {
+			wg.Add(1)
+			go func(i int) {
+				defer wg.Done()
+				p := mk(i)
+				errs[i] = st.Receive(p, bytes.NewReader(body[i*partLen:(i+1)*partLen]))
+			}(i)
+		}
+		wg.Wait()
+		hammerGate.Store(nil)
+		for i := 0; i < k; i++ {
+			if errs[i] != nil {
+				continue
+			}
+			n := st.Received([]sts.Binned{&binnedPart{name: name, hash: hash, ftime: time.Unix(1700000000, 0), beg: int64(i * partLen), end: int64((i + 1) * partLen)}})
+			if n != 1 {
+				return fmt.Sprintf("round %d: part %d:%d of %s was acknowledged (Receive returned nil on one of %d concurrent connections) but is not on record any more", round, i*partLen, (i+1)*partLen, name, k), nil
+			}
+		}
+	}
+	return "", nil
 }
